@@ -81,3 +81,83 @@ Example mutual_reference :
   let d := fun k => match k with 0 => Some [Id 1] | 1 => Some [Id 0; Other 7] | _ => None end in
   impl_expand d 10 [Id 0; Id 1] = ([Id 0; Other 7; Id 1; Other 7], true).
 Proof. reflexivity. Qed.
+
+(* ---------------- stringification *)
+From Coq Require Import NArith.
+
+Lemma srun_app fixed : forall a b st,
+  srun fixed st (a ++ b) = (fst (srun fixed st a) ++ fst (srun fixed (snd (srun fixed st a)) b), snd (srun fixed (snd (srun fixed st a)) b)).
+Proof.
+  induction a as [|c r IH]; intros b st; cbn [app srun fst snd].
+  - destruct (srun fixed st b); reflexivity.
+  - destruct (sstep fixed st c) as [o st'] eqn:E. rewrite (IH b st').
+    destruct (srun fixed st' r) as [o2 st2]. cbn [fst snd].
+    destruct (srun fixed st2 b) as [o3 st3]. cbn [fst snd]. rewrite app_assoc. reflexivity.
+Qed.
+
+Definition plain_char (c : N) : bool := negb (N.eqb c c_dq) && negb (N.eqb c c_sq) && negb (N.eqb c c_bs).
+
+Lemma other_run st cs : escaped st = false -> forallb plain_char cs = true -> srun true st cs = (cs, st).
+Proof.
+  intros He. induction cs as [|c r IH]; intros H; [reflexivity|].
+  cbn [forallb] in H. apply andb_true_iff in H. destruct H as [Hc Hr].
+  unfold plain_char in Hc. apply andb_true_iff in Hc. destruct Hc as [Hc Hb]. apply andb_true_iff in Hc. destruct Hc as [Hd Hs].
+  apply negb_true_iff in Hd, Hs, Hb.
+  cbn [srun]. unfold sstep. rewrite He, Hb, Hs, Hd. rewrite (IH Hr). reflexivity.
+Qed.
+
+Definition lit_state (dq : bool) : sstate := {| escaped := false; in_sq := negb dq; in_dq := dq |}.
+
+Lemma sstep_bs_in_lit dq : sstep true (lit_state dq) c_bs = ([c_bs; c_bs], {| escaped := true; in_sq := negb dq; in_dq := dq |}).
+Proof. destruct dq; reflexivity. Qed.
+Lemma sstep_escaped a b c : sstep true {| escaped := true; in_sq := a; in_dq := b |} c = (esc_char c, {| escaped := false; in_sq := a; in_dq := b |}).
+Proof. reflexivity. Qed.
+
+Lemma item_run dq i : item_ok dq i = true -> srun true (lit_state dq) (item_src i) = (item_spec i, lit_state dq).
+Proof.
+  destruct i as [c|c]; cbn [item_ok item_src item_spec]; intros H.
+  - apply andb_true_iff in H. destruct H as [Hq Hb]. apply negb_true_iff in Hq, Hb.
+    cbn [srun]. unfold sstep, lit_state. cbn [escaped in_sq in_dq]. rewrite Hb. unfold esc_char. rewrite Hb. cbn [orb].
+    destruct dq; cbn [quote_of negb andb orb] in *.
+    + rewrite Hq. destruct (N.eqb c c_sq); reflexivity.
+    + rewrite Hq. destruct (N.eqb c c_dq); reflexivity.
+  - cbn [srun]. rewrite sstep_bs_in_lit, sstep_escaped. cbn [app]. rewrite app_nil_r. reflexivity.
+Qed.
+
+Lemma body_run dq body : forallb (item_ok dq) body = true ->
+  srun true (lit_state dq) (flat_map item_src body) = (flat_map item_spec body, lit_state dq).
+Proof.
+  induction body as [|i r IH]; intros H; [reflexivity|].
+  cbn [forallb] in H. apply andb_true_iff in H. destruct H as [Hi Hr].
+  cbn [flat_map]. rewrite srun_app, (item_run dq i Hi). cbn [fst snd]. rewrite (IH Hr). reflexivity.
+Qed.
+
+Lemma tok_run t : stok_ok t = true -> srun true s0 (stok_src t) = (stok_spec t, s0).
+Proof.
+  destruct t as [dq body|cs]; cbn [stok_ok stok_src stok_spec]; intros H.
+  - (* opening quote, body, closing quote *)
+    change (quote_of dq :: flat_map item_src body ++ [quote_of dq]) with ([quote_of dq] ++ flat_map item_src body ++ [quote_of dq]).
+    rewrite srun_app.
+    assert (Ho : srun true s0 [quote_of dq] = (esc_char (quote_of dq), lit_state dq)) by (destruct dq; reflexivity).
+    rewrite Ho. cbn [fst snd]. rewrite srun_app, (body_run dq body H). cbn [fst snd].
+    assert (Hc : srun true (lit_state dq) [quote_of dq] = (esc_char (quote_of dq), s0)) by (destruct dq; reflexivity).
+    rewrite Hc. reflexivity.
+  - apply other_run; [reflexivity|exact H].
+Qed.
+
+Lemma toks_run ts : forallb stok_ok ts = true -> srun true s0 (flat_map stok_src ts) = (flat_map stok_spec ts, s0).
+Proof.
+  induction ts as [|t r IH]; intros H; [reflexivity|].
+  cbn [forallb] in H. apply andb_true_iff in H. destruct H as [Ht Hr].
+  cbn [flat_map]. rewrite srun_app, (tok_run t Ht). cbn [fst snd]. rewrite (IH Hr). reflexivity.
+Qed.
+
+(* the # operator: for EVERY argument made of well-formed tokens the character-level state machine produces the string literal the standard prescribes *)
+Theorem stringify_conforming ts : forallb stok_ok ts = true -> stringify true (flat_map stok_src ts) = stringify_spec ts.
+Proof. intros H. unfold stringify, stringify_spec. rewrite (toks_run ts H). reflexivity. Qed.
+
+(* the pinned machine let a quote of the other kind toggle its state: "it's" followed by a character literal holding a backslash *)
+Theorem stringify_pinned_refuted :
+  let ts := [SLit true [Plain 105; Plain 116; Plain 39; Plain 115]; SOther [32]; SLit false [Esc 92]]%N in
+  forallb stok_ok ts = true /\ stringify false (flat_map stok_src ts) <> stringify_spec ts.
+Proof. split; [reflexivity|]. vm_compute. discriminate. Qed.
